@@ -969,4 +969,61 @@ theorem sameCursor_last (ts : List Token) : ∀ (l : List (List Char)) (a b : Li
 
 end layout
 
+/-! ## C18: splitting lines -/
+
+theorem isEmpty_append_false (x y : String) (h : x.isEmpty = false) : (x ++ y).isEmpty = false := by
+  rw [String.isEmpty_eq_false_iff] at h ⊢
+  intro he
+  have := congrArg String.utf8ByteSize he
+  rw [String.utf8ByteSize_append] at this
+  simp at this
+  exact h this.1
+
+/-- splitting a line where the text so far is not closed is writing a newline there -/
+theorem groupsAux_split (pending x y : String) (ls : List String)
+    (hx : x.isEmpty = false) (hy : y.isEmpty = false)
+    (hc : Bracket.closed (pending ++ x).toList = false) :
+    groupsAux pending (x :: y :: ls) = groupsAux pending ((x ++ "\n" ++ y) :: ls) := by
+  have hxy : (x ++ "\n" ++ y).isEmpty = false := by
+    rw [String.append_assoc]; exact isEmpty_append_false _ _ hx
+  have e : pending ++ (x ++ "\n" ++ y) = pending ++ x ++ "\n" ++ y := by
+    simp [String.append_assoc]
+  simp only [groupsAux, hx, hy, hxy, hc, Bool.false_eq_true, if_false, e]
+
+
+theorem groupsAux_append (a b : List String) : ∀ (p : String),
+    groupsAux p (a ++ b) =
+      ((groupsAux p a).1 ++ (groupsAux (groupsAux p a).2 b).1, (groupsAux (groupsAux p a).2 b).2) := by
+  induction a with
+  | nil => intro p; simp [groupsAux]
+  | cons l ls ih =>
+    intro p
+    simp only [List.cons_append, groupsAux]
+    split
+    · exact ih p
+    · split
+      · rw [ih ""]; simp
+      · exact ih _
+
+theorem groups_split (pre ls : List String) (x y : String)
+    (hx : x.isEmpty = false) (hy : y.isEmpty = false)
+    (hc : Bracket.closed (unfinished pre ++ x).toList = false) :
+    groups (pre ++ x :: y :: ls) = groups (pre ++ (x ++ "\n" ++ y) :: ls) ∧
+    unfinished (pre ++ x :: y :: ls) = unfinished (pre ++ (x ++ "\n" ++ y) :: ls) := by
+  unfold groups unfinished at *
+  rw [groupsAux_append, groupsAux_append, groupsAux_split _ x y ls hx hy hc]
+  exact ⟨rfl, rfl⟩
+
+theorem session_congr (fuel : Nat) : ∀ (gs₁ gs₂ : List String) (st : State),
+    SameLocTokens gs₁ gs₂ → session fuel st gs₁ = session fuel st gs₂
+  | [], [], _, _ => rfl
+  | g :: gs, h :: hs, st, hh => by
+    have hs' : ∀ st, submit fuel st g = submit fuel st h := fun st => by
+      unfold submit
+      rw [evalText_lex_congr fuel (clearOut st) _ _ hh.1]
+    simp only [session, hs', session_congr fuel gs hs _ hh.2]
+  | [], _ :: _, _, hh => by cases hh
+  | _ :: _, [], _, hh => by cases hh
+
+
 end Ruschm.FrontSpec
